@@ -26,6 +26,9 @@ claimed = {
  'C09': ("contract-based deductive verification: functional contract of checkMissingWhereConditions from the property statement + dominance site obligations in the Update/Delete executors, SMT-discharged",
          "Proof, for all clause maps, that the guard rejects exactly the statements without an effective condition (soft-delete filter not counted) and that every driver call of the update/delete executors happens after the guard ran and passed.",
          "BuildCondition returns no expression for empty forms (trusted, reflection); WHERE entries hold clause.Where (proved for Where.MergeClause)", "4/C09"),
+ 'C01': ("contract-based deductive verification: event precondition at every Dialector.BindVarTo call (the value was appended to the statement's Vars immediately before, placeholder goes to the caller's writer), site obligations (driver calls receive exactly Statement.Vars; a sub-query continues from the parent's bound values; Valuers are bound whole), loop-invariant/bounds proof of Expr.Build's cursor, SMT-discharged",
+         "Proof of the pairing lemma 'a placeholder is written only for the value just appended, on the same statement and writer' at every site in /repo, and that the values handed to the driver are the statement's Vars. The counting lemma (exactly one placeholder per value through all Build implementations) is NOT mechanised yet.",
+         "dialect BindVarTo writes exactly one placeholder token; user Expression/Valuer implementations; Builder/Writer implementations change only builder state", "4/C01"),
  'C02': ("contract-based deductive verification: K1 contracts of the condition constructors And/Or/Not and Where.MergeClause, SMT-discharged; raw-string grouping decided by a bounded stand-in on the real Build methods",
          "Proof, for all inputs, that And/Or/Not build exactly the documented group structure (empty = no condition, single non-OR unit unchanged, AND-group negated member-wise) and that successive Where clauses concatenate in call order. The parenthesising of raw AND/OR strings (string reasoning, outside the verifier's reach) is covered by a BOUNDED exhaustive run of the real Build methods, labelled bounded and not counted as proved.",
          "SQL precedence; atoms mean what they say; BuildCondition's form conversion is trusted (reflection)", "4/C02"),
